@@ -450,3 +450,35 @@ V("c18-package-prefix", "C18", "fire", "C18.R6",
 V("c18-loadurl-skip-normalize", "C18", "fire", "C18.R3",
   (LD, "        url = self.normalizeURL(url)\n        with self.openResource(url) as r:\n            return self.loadResource(r)",
        "        with self.openResource(url) as r:\n            return self.loadResource(r)"))
+
+# ---------------------------------------------------------------- C17
+SLF = "src/ZConfig/schemaless.py"
+V("c17-unfix-escape-value", "C17", "fire", "C17.R1",
+  (SLF, "                value = value.replace('$', '$$')\n", ""))
+V("c17-unfix-escape-import", "C17", "fire", "C17.R1",
+  (SLF, "result.append('%import ' + pkgname.replace('$', '$$'))",
+        "result.append('%import ' + pkgname)"))
+V("c17-unfix-slash", "C17", "fire", "C17.R2",
+  (SLF, "            if start.endswith('/'):\n"
+        "                # \"<a b/ >\" must not turn into the empty form \"<a b/>\"\n"
+        "                start += ' '\n", ""))
+V("c17-header-no-space", "C17", "fire", "C17.R2",
+  (SLF, "start = f'{pre}<{self.type} {self.name}'", "start = f'{pre}<{self.type}{self.name}'"))
+V("c17-kv-equals", "C17", "fire", "C17.R2",
+  (SLF, "result.append(f'{pre}{name} {value}')", "result.append(f'{pre}{name}={value}')"))
+V("c17-closer-name", "C17", "fire", "C17.R2",
+  (SLF, "result.append(f'{pre}</{self.type}>')", "result.append(f'{pre}</{self.name}>')"))
+V("c17-values-sorted", "C17", "fire", "C17.R3",
+  (SLF, "            for value in values:", "            for value in sorted(values):"))
+V("c17-sections-reversed", "C17", "fire", "C17.R3",
+  (SLF, "        for section in self.sections:\n            result.append(section.__str__(pre))",
+        "        for section in reversed(self.sections):\n            result.append(section.__str__(pre))"))
+V("c17-addvalue-prepend", "C17", "fire", "C17.R3",
+  (SLF, "            self[key].append(value)", "            self[key].insert(0, value)"))
+V("c17-define-dropped", "C17", "fire", "C17.R4",
+  (SLF, "        raise NotImplementedError('defines are not supported')", "        return None"))
+V("c17-import-dup", "C17", "fire", "C17.R3",
+  (SLF, "        if pkgname not in self.top.imports:\n            self.top.imports += (pkgname, )",
+        "        self.top.imports += (pkgname, )"))
+V("c17-comment-hash-key", "C17", "silent", None,
+  (SLF, "        lst = sorted(self.items())", "        lst = sorted(self.items())  # keys only"))
